@@ -48,8 +48,43 @@ def log_term(x):
     return _LOG(_to_real(lift(x)))
 
 
+def _note_exp(t):
+    """ground instances of the exp/log facts for a scalar argument that actually occurs (DESIGN 4.3):
+    positivity, log(exp t) = t, and strict monotonicity against every exp argument seen so far"""
+    ctx = cur()
+    if ctx.binders:
+        return
+    seen = ctx.memo.setdefault("exp-args", [])
+    if any(z3.eq(t, u) for u in seen):
+        return
+    ctx.assume(_EXP(t) > 0, tag="math:Real.exp_pos")
+    ctx.assume(_LOG(_EXP(t)) == t, tag="math:Real.log_exp")
+    for u in seen:
+        ctx.assume(z3.And(z3.Implies(t < u, _EXP(t) < _EXP(u)), z3.Implies(t == u, _EXP(t) == _EXP(u)), z3.Implies(t > u, _EXP(t) > _EXP(u))), tag="math:Real.exp_lt_exp")
+    seen.append(t)
+    ctx.trusted.add("Mathlib facts, ground instances for occurring terms: Real.exp_pos, Real.log_exp, Real.exp_lt_exp")
+
+
+def _note_log(x):
+    ctx = cur()
+    if ctx.binders:
+        return
+    seen = ctx.memo.setdefault("log-args", [])
+    if any(z3.eq(x, u) for u in seen):
+        return
+    ctx.assume(z3.Implies(x > 0, _EXP(_LOG(x)) == x), tag="math:Real.exp_log")
+    for u in seen:
+        ctx.assume(z3.Implies(z3.And(x > 0, u > 0), z3.And(z3.Implies(x < u, _LOG(x) < _LOG(u)), z3.Implies(x == u, _LOG(x) == _LOG(u)), z3.Implies(x > u, _LOG(x) > _LOG(u)))), tag="math:Real.log_lt_log")
+    seen.append(x)
+    _note_exp(_LOG(x))
+    ctx.trusted.add("Mathlib facts, ground instances for occurring terms: Real.exp_log, Real.log_lt_log")
+
+
 def exp(x):
     cur().trusted.add("jnp.exp (uninterpreted; ground lemma instances of Mathlib facts)")
+    xa = asarray(x)
+    if xa.ndim == 0:
+        _note_exp(_to_real(xa.get(())))
     return elementwise((x,), lambda e: _EXP(_to_real(e)), "float")
 
 
@@ -66,6 +101,7 @@ def log(x):
         else:
             # jnp.log of a non-positive number is nan / -inf: outside the real-valued model
             ctx.prove_then_assume("log-of-non-positive", e > 0, "safety")
+            _note_log(e)
     else:
         I = [z3.Int(ctx.fresh("lg")) for _ in range(xa.ndim)]
         ctx.prove_then_assume("log-of-non-positive", _forall(I, z3.Implies(inrange(xa.zshape, I), _to_real(xa.get(tuple(I))) > 0), dims=list(xa.zshape)), "safety")
